@@ -207,6 +207,9 @@ class C06Spec(c01.C01Spec):
         s = cfg['sched']
         s['w_kill'] = rng.choice([0.005, 0.02])
         s['w_killop'] = rng.choice([0.01, 0.03])
+        if conf.get('useFork'):
+            # the dump writer alone dies by a signal while the node keeps running
+            s['w_childkill'] = rng.choice([0.0, 0.05, 0.2])
         s['w_start'] = rng.choice([0.1, 0.5])
         s['p_kill_voter'] = 0.0
         s['p_kill_in_compaction'] = rng.choice([0.0, 0.5, 1.0])
